@@ -36,13 +36,8 @@ def leg_T(ctx, sessions, only=None):
     tpath = os.path.join(ctx.work, "newick_trace.ndjson")
     ctx.vh(["newick-drive", tpath, sessions] + ([only] if only is not None else []))
 
-    def classify(why, e, text, rp):
-        if why.startswith("NOTE"):
-            ctx.note("drift (not a violation): %s" % text)
-        else:
-            ctx.violation(text, rp)
     codec.judge_trace(ctx, "Trace_Newick", tpath, {"driver": "newick-drive", "sessions": sessions}, maxset=100000000, heap="8g",
-                      classify=classify,
+                     
                       describe=lambda e: "%d tree(s) of %s nodes, texts %s -> %d trees back, err=%s" % (
                           len(e["trees"]), [len(t) for t in e["trees"]], [bytes(t[:80]) for t in e["texts"][:3]], len(e["back"]), e["err"]))
 
